@@ -380,4 +380,130 @@ theorem finalizeEqProof_rel {i : EqInit G} {i' : EqInit G'} (hi : EqInitRel R i 
   | err => simp [ORel]
   | panic => simp [ORel]
 
+
+/-! ## the prover's side of the predicate sub-protocol -/
+
+structure NeInitRel (R : G → G' → Prop) (i : NeInit G) (i' : NeInit G') : Prop where
+  cList : List.Forall₂ R i.cList i'.cList
+  tauList : List.Forall₂ R i.tauList i'.tauList
+  u : i.u = i'.u
+  uTilde : i.uTilde = i'.uTilde
+  r : i.r = i'.r
+  rTilde : i.rTilde = i'.rTilde
+  alphaTilde : i.alphaTilde = i'.alphaTilde
+  pred : i.pred = i'.pred
+  t : MapRel R i.t i'.t
+
+theorem neCommit_rel (ho : OpsRel R o o') {pk : PubKey G} {pk' : PubKey G'} (hpk : PKRel R pk pk')
+    (u r : List (String × Int)) :
+    ∀ ks : List String, ORel (MapRel R) (neCommit o pk u r ks) (neCommit o' pk' u r ks) := by
+  intro ks
+  induction ks with
+  | nil => exact List.Forall₂.nil
+  | cons i is ih =>
+    simp only [neCommit]
+    cases getOrErr i u with
+    | ok cu =>
+      cases getOrErr i r with
+      | ok cr =>
+        simp only [Outcome.bind_ok]
+        refine ORel.bind (ho.pow cu hpk.z) fun zu zu' hzu => ?_
+        refine ORel.bind (ho.pow cr hpk.s) fun sr sr' hsr => ?_
+        exact ORel.map ih fun l l' hl => List.Forall₂.cons ⟨rfl, ho.mul hzu hsr⟩ hl
+      | err => simp [ORel]
+      | panic => simp [ORel]
+    | err => simp [ORel]
+    | panic => simp [ORel]
+
+theorem mapRel_values {m : List (String × G)} {m' : List (String × G')} (h : MapRel R m m') :
+    List.Forall₂ R (m.map (·.2)) (m'.map (·.2)) := by
+  induction h with
+  | nil => exact List.Forall₂.nil
+  | cons hpq _ ih => exact List.Forall₂.cons hpq.2 ih
+
+theorem initNeProof_rel (ho : OpsRel R o o') (m : OvfMode) (fourSq : Int → Outcome (List Int))
+    {pk : PubKey G} {pk' : PubKey G'} (hpk : PKRel R pk pk') (mTilde : List (String × Int))
+    (vals : Values) (p : Pred) (tp : NeTape) :
+    ORel (NeInitRel R) (initNeProof o m fourSq pk mTilde vals p tp)
+      (initNeProof o' m fourSq pk' mTilde vals p tp) := by
+  unfold initNeProof
+  cases getOrErr p.attr vals with
+  | ok attrValue =>
+    simp only [Outcome.bind_ok]
+    cases (if IntTy.i32.inRange attrValue then Outcome.ok attrValue else Outcome.err) with
+    | ok av =>
+      simp only [Outcome.bind_ok]
+      cases getDelta m p av with
+      | ok delta =>
+        simp only [Outcome.bind_ok]
+        split
+        · trivial
+        · cases fourSq delta with
+          | ok roots =>
+            simp only [Outcome.bind_ok]
+            refine ORel.bind (neCommit_rel ho hpk _ tp.r _) fun ts ts' hts => ?_
+            cases getOrErr "DELTA" tp.r with
+            | ok rDelta =>
+              simp only [Outcome.bind_ok]
+              refine ORel.bind (ho.pow delta hpk.z) fun zd zd' hzd => ?_
+              refine ORel.bind (ho.pow rDelta hpk.s) fun sr sr' hsr => ?_
+              have htd := ho.mul hzd hsr
+              have ht : MapRel R (ts ++ [("DELTA", o.mul zd sr)]) (ts' ++ [("DELTA", o'.mul zd' sr')]) :=
+                List.rel_append hts (List.Forall₂.cons ⟨rfl, htd⟩ List.Forall₂.nil)
+              cases getOrErr p.attr mTilde with
+              | ok mj =>
+                simp only [Outcome.bind_ok]
+                cases isLess p with
+                | ok less =>
+                  simp only [Outcome.bind_ok]
+                  refine ORel.map (calcTne_rel ho hpk _ _ _ _ ht less) fun tau tau' htau => ?_
+                  exact ⟨List.rel_append (mapRel_values hts)
+                      (List.Forall₂.cons htd List.Forall₂.nil), htau, rfl, rfl, rfl, rfl, rfl, rfl, ht⟩
+                | err => simp [ORel]
+                | panic => simp [ORel]
+              | err => simp [ORel]
+              | panic => simp [ORel]
+            | err => simp [ORel]
+            | panic => simp [ORel]
+          | err => simp [ORel]
+          | panic => simp [ORel]
+      | err => simp [ORel]
+      | panic => simp [ORel]
+    | err => simp [ORel]
+    | panic => simp [ORel]
+  | err => simp [ORel]
+  | panic => simp [ORel]
+
+theorem neResponses_congr {i : NeInit G} {i' : NeInit G'} (hi : NeInitRel R i i') (c : Int) :
+    ∀ ks : List String, neResponses c i ks = neResponses c i' ks := by
+  intro ks
+  induction ks with
+  | nil => rfl
+  | cons k ks ih => simp only [neResponses, hi.u, hi.uTilde, hi.r, hi.rTilde, ih]
+
+theorem finalizeNeProof_rel {i : NeInit G} {i' : NeInit G'} (hi : NeInitRel R i i') (c : Int)
+    {eq : EqProof G} {eq' : EqProof G'} (hm : eq.m = eq'.m) :
+    ORel (NeRel R) (finalizeNeProof c i eq) (finalizeNeProof c i' eq') := by
+  unfold finalizeNeProof
+  rw [neResponses_congr hi c, hi.rTilde, hi.r, hi.pred, hi.alphaTilde, hm]
+  cases neResponses c i' iterKeys with
+  | ok x =>
+    obtain ⟨us, rs, urp⟩ := x
+    simp only [Outcome.bind_ok]
+    cases getOrPanic "DELTA" i'.rTilde with
+    | ok rtd =>
+      cases getOrPanic "DELTA" i'.r with
+      | ok rd =>
+        simp only [Outcome.bind_ok]
+        cases getOrPanic i'.pred.attr eq'.m with
+        | ok mj => exact ⟨rfl, rfl, rfl, rfl, hi.t, rfl⟩
+        | err => simp [ORel]
+        | panic => simp [ORel]
+      | err => simp [ORel]
+      | panic => simp [ORel]
+    | err => simp [ORel]
+    | panic => simp [ORel]
+  | err => simp [ORel]
+  | panic => simp [ORel]
+
 end CL.Pri
